@@ -141,6 +141,7 @@ func (ts *BackgroundTaskManager) InvokeBackgroundTask(do func(context.Context), 
 			select {
 			case <-ch: // some prioritized tasks started; retry it later
 				cancel()
+				<-done // wait for the cancelled task so that it never overlaps with the retried one
 				return false
 			case <-done: // All tasks completed
 			}
